@@ -153,12 +153,16 @@ RESIDUAL_PARTIALS = {
     "p": "[{{ p }}|{{ a }}|{{ z }}|{{ forloop.index }}]{% assign leaked = 1 %}",
     "dir/q": "{% for i in (1..2) %}{{ i }}{% include 'p' %}{% endfor %}",
     "rec": "{% render 'rec' %}",
+    "brk": "a{% break %}b",
+    "cnt": "a{% if x %}{% continue %}{% endif %}b",
 }
 RESIDUAL_PARTIAL_USES = [
     "{% include 'p' %}{% render 'p' %}{% include 'p' with a %}{% render 'p' with items[0] as p %}{{ leaked }}",
     "{% include 'p' for items %}{% render 'p' for items as p %}{% render 'p', z: a, p: 2 %}{% include 'p', z: 1 %}",
     "{% include 'dir/q' %}{% render 'dir/q' %}{% include t %}{% include nosuch %}{% render 'missing' %}",
     "{% for i in items %}{% include 'p' %}{% render 'p', a: i %}{% endfor %}{% render 'rec' %}",
+    "{% for i in (1..3) %}[{{ i }}]{% render 'brk' %}<{{ i }}>{% endfor %}|{% for i in (1..3) %}[{{ i }}]{% include 'brk' %}<{{ i }}>{% endfor %}",
+    "{% for i in (1..3) %}[{{ i }}]{% render 'cnt', x: i %}<{{ i }}>{% endfor %}|{% for i in (1..3) %}{% include 'cnt' %}{{ i }}{% endfor %}{% render 'brk' %}{% include 'cnt' %}",
 ]
 
 
